@@ -64,6 +64,9 @@ class Steps:
     def install(self) -> None:
         if self.installed:
             return
+        if _mon.get_tool(STEP_TOOL) is not None:  # another Steps instance of this process: take the tool over
+            _mon.set_events(STEP_TOOL, 0)
+            _mon.free_tool_id(STEP_TOOL)
         _mon.use_tool_id(STEP_TOOL, "vf-steps")
         ev = _mon.events
         _mon.register_callback(STEP_TOOL, ev.PY_START, self._start)
